@@ -300,10 +300,9 @@ func (h *Harness) checkClone(fs *vfs.MemFS, b bounds, where string, depth int, i
 	if v.Mixed {
 		atomic.AddInt64(&h.mixed, 1)
 		if !h.allowMixed {
-			h.Run.FailMatch("non-prefix-recovery", map[string]any{"lost": "unsynced-batches-only", "survivors": "ingest-or-excise"},
+			h.Run.ViolateSoft("non-prefix-recovery", map[string]any{"lost": "unsynced-batches-only", "survivors": "ingest-or-excise"},
 				"crash at %s: recovered state is not a prefix of the history: %d unsynced batch(es) after unit %d are lost while later ingest/excise unit(s) up to %d survive",
 				where, v.LostBatch, v.Prefix, v.Q)
-			return v
 		}
 	} else {
 		if v.Prefix < b.acked {
